@@ -186,6 +186,14 @@ def report(prop, tier, seed, results, known, wall) -> int:
                 suffix = ' no-failing-input-found'
                 rp['replay']['note'] = ('inductive-step obligation: the model is a loop-head/suspension state, '
                                         'not an input of the function')
+                clause = o['name'].split('.', 1)[1] if '.' in o['name'] else o['name']
+                driver = h.native_replays.get(clause)
+                if driver:
+                    nat = _native_replay(driver)
+                    rp['native_schedule_replay'] = nat
+                    if nat.get('exit') == 1:        # the forced schedule exhibits the violation on the real code
+                        suffix = ''
+                        rp['replay']['confirmed'] = True
             elif o['name'] in failed:
                 rp['replay']['confirmed'] = True
             else:
@@ -212,6 +220,18 @@ def report(prop, tier, seed, results, known, wall) -> int:
     print(f'{prop} {tier}: {st}  obligations={n_ob} discharged={n_proved} known={n_known} '
           f'harnesses={len(results)} paths={sum(r["paths"] for r in results)} wall={wall:.1f}s')
     return exit_code
+
+
+def _native_replay(driver: str) -> dict:
+    """Run a schedule-forcing driver natively against the tree under check (exit 1 = violation exhibited)."""
+    import subprocess
+    repo = os.environ.get('PYVC_REPO', '/repo')
+    try:
+        p = subprocess.run(['/venv/bin/python', os.path.join(VERIF, driver)], cwd=repo, capture_output=True, text=True,
+                           timeout=120, env={**os.environ, 'PYTHONPATH': repo})
+        return dict(driver=driver, exit=p.returncode, output=(p.stdout + p.stderr)[-2000:])
+    except Exception as e:
+        return dict(driver=driver, exit=None, output=f'{type(e).__name__}: {e}')
 
 
 def _fname(s):
